@@ -647,6 +647,47 @@ fn run_case(c: &Case) -> Verdict {
     })
 }
 
+/// C08's share of the above: the payload an HTTP/1.1 tunnel delivers is the destination's byte
+/// stream also when the relay is interrupted (the session's `listen` is cancelled by a shutdown
+/// while a chunk is only partly written to a client that is not reading) and resumed by the
+/// wind-down. Everything else about the wind-down is C19's business and not judged here.
+pub struct H1DownloadAcrossShutdownSuite;
+
+impl Suite for H1DownloadAcrossShutdownSuite {
+    type Case = Case;
+    fn name(&self) -> &'static str {
+        "h1-download-across-shutdown"
+    }
+    fn rule(&self) -> String {
+        "1-2 real HTTP/1.1 tunnel sessions over in-memory transports (virtual clock, scripted forwarder) whose destination pushed 1-6 chunks of 1-6000 bytes into a 256-8192 byte transport of which the client has read a generated part; a shutdown is submitted 0-300 ms later - it cancels the codec's listen() in the middle of a partly written chunk - and the client resumes reading 0-3000 ms after that; oracle: the bytes the client has received when the connection ends are a prefix of the destination's stream (no hole, nothing twice); non-trivial = more bytes pushed than the client had read plus what its transport holds".into()
+    }
+    fn strategy(&self, _: Tier) -> BoxedStrategy<Case> {
+        let s = (prop::collection::vec(1u16..6000, 1..=6), 256u16..8192, 0u16..4000, 0u16..3000)
+            .prop_map(|(chunks, buf, pre_read, resume_ms)| Sess::H1Tunnel { chunks, buf, pre_read, resume_ms });
+        (prop::collection::vec(s, 1..=2), 0u16..300).prop_map(|(sessions, submit_at_ms)| Case { sessions, submit_at_ms }).boxed()
+    }
+    fn cases(&self, tier: Tier) -> u64 {
+        tier.pick(2000, 60_000)
+    }
+    fn classify(&self, c: &Case) -> Vec<&'static str> {
+        let parked = c.sessions.iter().any(|s| match s {
+            Sess::H1Tunnel { chunks, buf, pre_read, .. } => chunks.iter().map(|c| *c as usize).sum::<usize>() > *pre_read as usize + *buf as usize,
+            _ => false,
+        });
+        if parked {
+            vec!["nontrivial"]
+        } else {
+            vec![]
+        }
+    }
+    fn check(&self, c: &Case) -> Verdict {
+        match run_case(c) {
+            Err(v) if v.sig == "session:download-has-a-hole" || v.sig.starts_with("harness:") => Err(v),
+            _ => Ok(()),
+        }
+    }
+}
+
 impl Suite for SessionSuite {
     type Case = Case;
     fn name(&self) -> &'static str {
